@@ -19,23 +19,30 @@ def parseCxnOp (t : String) : Option CxnOp :=
 def showBox (b : Box) : String := s!"{b.x},{b.y},{b.cx},{b.cy}"
 
 /-- pre-order list of the boxes of all groups below the root -/
-partial def groupBoxes : G → List Box
+partial def groupBoxes : G → List (Box × Box)
   | .leaf _ => []
-  | .grp _ kids => kids.foldr (fun k acc =>
+  | .grp _ _ kids => kids.foldr (fun k acc =>
       match k with
       | .leaf _ => acc
-      | .grp b _ => b :: (groupBoxes k ++ acc)) []
+      | .grp b ch _ => (b, ch) :: (groupBoxes k ++ acc)) []
 
 def parsePath (t : String) : Option (List Nat) :=
   if t == "-" then some [] else (t.splitOn "/").mapM (·.toNat?)
 
-def parseAdd (t : String) : Option (List Nat × G) :=
+inductive TreeOp | add (p : List Nat) (g : G) | set (p : List Nat) (b : Box)
+
+def parseAdd (t : String) : Option TreeOp :=
   match t.splitOn "|" with
-  | [p, "G"] => do let p ← parsePath p; pure (p, G.emptyGrp)
+  | [p, "G"] => do let p ← parsePath p; pure (.add p G.emptyGrp)
   | [p, "L", b] => do
       let p ← parsePath p
       match ← decIntList b with
-      | [x, y, cx, cy] => pure (p, G.leaf ⟨x, y, cx, cy⟩)
+      | [x, y, cx, cy] => pure (.add p (G.leaf ⟨x, y, cx, cy⟩))
+      | _ => none
+  | [p, "S", b] => do
+      let p ← parsePath p
+      match ← decIntList b with
+      | [x, y, cx, cy] => pure (.set p ⟨x, y, cx, cy⟩)
       | _ => none
   | _ => none
 
@@ -62,10 +69,12 @@ def handle : List String → Option String
       pure (";".intercalate outs)
   | ["c17.grp", adds] => do
       let adds ← if adds == "!" then some [] else (adds.splitOn ";").mapM parseAdd
-      let root : G := .grp ⟨0, 0, 0, 0⟩ []
-      let (_, outs) := adds.foldl (fun (g, acc) (a : List Nat × G) =>
-        let g' := G.addAt a.1 a.2 g
-        (g', acc ++ ["/".intercalate ((groupBoxes g').map showBox)])) (root, [])
+      let root : G := .grp ⟨0, 0, 0, 0⟩ ⟨0, 0, 0, 0⟩ []
+      let (_, outs) := adds.foldl (fun (g, acc) (a : TreeOp) =>
+        let g' := match a with
+          | .add p n => G.addAt p n g
+          | .set p b => G.setBoxAt p b g
+        (g', acc ++ ["/".intercalate ((groupBoxes g').map fun (b, ch) => showBox b ++ "~" ++ showBox ch)])) (root, [])
       pure ("#".intercalate outs)
   | ["c17.ff", sx, sy, xs, ys, ox, oy, ops] => do
       let (sxn, sxd) ← parseRat sx; let (syn, syd) ← parseRat sy
